@@ -863,6 +863,19 @@ static void convert_brace(Chunk *br)
             {
                Chunk::Delete(tmp);
             }
+            else
+            {
+               // that line break belongs to a directive (or a '//' comment): the one on the
+               // other side of the removed brace goes instead, or a blank line would appear
+               Chunk *other = br->Is(CT_VBRACE_CLOSE) ? br->GetPrev() : br->GetNext();
+
+               if (  other->Is(CT_NEWLINE)
+                  && other->GetNlCount() == 1
+                  && other->SafeToDeleteNl())
+               {
+                  Chunk::Delete(other);
+               }
+            }
          }
       }
    }
